@@ -5720,6 +5720,17 @@ impl<'a> Parser<'a> {
                 let pattern = self.expression_to_pattern(expr)?;
                 Ok(AssignmentTarget::Pattern(pattern))
             }
+            // TypeScript: `x! = v`, `(x as T) = v` and `(<T>x) = v` assign to x
+            Expression::NonNull(n) => self.expression_to_assignment_target(&n.expression),
+            Expression::TypeAssertion(t) => self.expression_to_assignment_target(&t.expression),
+            Expression::Parenthesized(inner, _)
+                if matches!(
+                    inner.as_ref(),
+                    Expression::NonNull(_) | Expression::TypeAssertion(_)
+                ) =>
+            {
+                self.expression_to_assignment_target(inner)
+            }
             _ => Err(JsError::syntax_error(
                 "Invalid assignment target",
                 expr.span().line,
